@@ -386,3 +386,49 @@ func helperResult(v ssa.Value) (vals []ssa.Value, subst map[ssa.Value]ssa.Value,
 	}
 	return vals, core.FrameSubst(call.Common(), h), h
 }
+
+// eachValue runs f on v, or - when v is the result of a module helper call -
+// on each value the helper returns for that result, with the helper's
+// parameters bound to the call's arguments (depth-bounded).
+//
+// anchors names module functions a rule recognises by itself: their results
+// are handed to f as they are.
+func eachValue(v ssa.Value, f func(ssa.Value), anchors ...string) {
+	eachValueDepth(v, f, 0, anchors)
+}
+
+func eachValueDepth(v ssa.Value, f func(ssa.Value), depth int, anchors []string) {
+	if depth < core.MaxSummaryDepth {
+		if vals, subst, h := helperResult(v); h != nil && len(vals) > 0 {
+			isAnchor := false
+			for _, a := range anchors {
+				if h.String() == a {
+					isAnchor = true
+				}
+			}
+			if !isAnchor {
+				core.WithSubst(subst, func() {
+					for _, rv := range vals {
+						eachValueDepth(rv, f, depth+1, anchors)
+					}
+				})
+				return
+			}
+		}
+	}
+	f(v)
+}
+
+// resolveAlloc returns the local allocation v denotes: directly, or as the
+// single value a module helper returns (evaluated by fn under the helper's
+// substitution).
+func withAlloc(v ssa.Value, fn func(*ssa.Alloc)) bool {
+	found := false
+	eachValue(v, func(x ssa.Value) {
+		if al, ok := core.Strip(x).(*ssa.Alloc); ok {
+			found = true
+			fn(al)
+		}
+	})
+	return found
+}
